@@ -17,13 +17,13 @@ REPO = '/repo'
 V = '/verif'
 out_path, jobs, max_per_file = sys.argv[1], int(sys.argv[2]), int(sys.argv[3])
 files = sys.argv[4:]
-BIN = '/tmp/ms/asnlint.frozen'
-os.makedirs('/tmp/ms', exist_ok=True)
+BIN = os.environ.get('MS_DIR', '/tmp/ms') + '/asnlint.frozen'
+MS = os.environ.get('MS_DIR', '/tmp/ms'); os.makedirs(MS, exist_ok=True)
 shutil.copy(f'{V}/tools/asnlint/target/release/asnlint', BIN)
 # a frozen copy of the repository and of the tables: the sweep is not disturbed by later commits or edits
-BASE = '/tmp/ms/base'
+BASE = MS + '/base'
 subprocess.run(['rsync', '-a', '--delete', '--exclude', 'target', '--exclude', '.git', REPO + '/', BASE + '/'], check=True)
-VT = '/tmp/ms/verif'
+VT = MS + '/verif'
 os.makedirs(VT, exist_ok=True)
 for d in ('ref', 'audit'):
     shutil.copytree(f'{V}/{d}', f'{VT}/{d}', dirs_exist_ok=True)
@@ -66,7 +66,7 @@ PROPS = ['C%02d' % i for i in range(1, 21)]
 MIR = {'C08', 'C11', 'C12', 'C16', 'C20'}
 
 def run(job, muts):
-    base = f'/tmp/ms/{job}'
+    base = f'{MS}/{job}'
     scratch = f'{base}/repo'; tv = f'{base}/verif'; target = f'{base}/target'
     os.makedirs(tv, exist_ok=True)
     for d in ('ref', 'audit'):
